@@ -21,7 +21,7 @@ func init() {
 			"for every put* method the sizing pass (prepEncoder) and the writing pass (realEncoder) account for the same number of bytes, compared as symbolic linear forms per argument condition (C09.prep-real); length and CRC fields are written and checked over the same byte range with the same polynomial per container (C09.crc-len, the polynomial via C09.mirror tokens). " +
 			"no encoding step whose error is non-nil is answered with `return nil` or ignored (C09.enc-err, 338 steps). " +
 			"NOT covered: value-level equality (which bytes), compression codecs, varint arithmetic, agreement with the Kafka specification itself.",
-		Rules: []func(*Ctx){c09Mirror, c09Order, c09Balance, c09Keys, c09PrepReal, c09Null, c09CrcLen, c09EncErr, c09EarlyAccept, c09FreshElement},
+		Rules: []func(*Ctx){c09Mirror, c09Order, c09Balance, c09Keys, c09PrepReal, c09Null, c09CrcLen, c09EncErr, c09EarlyAccept, c09FreshElement, c10ErrLost, c09PoolOnce},
 	})
 }
 
@@ -988,4 +988,106 @@ func describeShort(a *ssa.Alloc) string {
 		return a.Comment
 	}
 	return "object"
+}
+
+// C09.pool-once: an object taken from a pool goes back at most once.
+func c09PoolOnce(c *Ctx) {
+	p := c.P
+	rule := "C09.pool-once"
+	c.Doc(rule, "every object handed back to a pool (releaseLengthField, releaseCrc32Field, (*sync.Pool).Put) is handed back at most once on every path of the function, deferred releases included: an object put back twice is handed out to two users at once — for the length and CRC fields of the decoders that means two nested (or concurrent) decodes overwrite each other's start offset and a valid message is rejected or a corrupt one accepted")
+	c.Floor(rule, 5)
+	isRelease := func(cc *ssa.CallCommon) (ssa.Value, bool) {
+		switch p.CalleeName(cc) {
+		case "releaseLengthField", "releaseCrc32Field":
+			if len(cc.Args) == 1 {
+				return canon(cc.Args[0]), true
+			}
+		case "(*sync.Pool).Put":
+			if len(cc.Args) == 2 {
+				return canon(cc.Args[1]), true
+			}
+		}
+		return nil, false
+	}
+	n := 0
+	for _, fn := range p.Fns {
+		if rootOf(fn).Pkg != p.Sarama || fn.Blocks == nil {
+			continue
+		}
+		objs := map[ssa.Value]bool{}
+		var order []ssa.Value
+		for _, b := range fn.Blocks {
+			for _, in := range b.Instrs {
+				var cc *ssa.CallCommon
+				switch x := in.(type) {
+				case *ssa.Call:
+					cc = &x.Call
+				case *ssa.Defer:
+					cc = &x.Call
+				}
+				if cc == nil {
+					continue
+				}
+				if v, ok := isRelease(cc); ok && !objs[v] {
+					objs[v] = true
+					order = append(order, v)
+				}
+			}
+		}
+		namesSeen := map[string]int{}
+		for _, v := range order {
+			n++
+			name := p.poolObjName(v)
+			namesSeen[name]++
+			if namesSeen[name] > 1 {
+				name = fmt.Sprintf("%s#%d", name, namesSeen[name])
+			}
+			rel := func(it Item) bool {
+				var cc *ssa.CallCommon
+				switch x := it.In.(type) {
+				case *ssa.Call:
+					cc = &x.Call
+				case *ssa.Defer:
+					cc = &x.Call
+				}
+				if cc == nil {
+					return false
+				}
+				w, ok := isRelease(cc)
+				return ok && w == v
+			}
+			cr := WholeFn(fn).Count(rel)
+			c.Check(!cr.HasTwo(), rule, fn, "released-at-most-once:"+name, cr.Second.Instr(), "handed back to its pool at most once per path", "an object can be handed back to its pool twice on one path (a release on a failure path in addition to the deferred one): the pool then gives the same object to two users, whose pushes and pops overwrite each other", nil)
+		}
+	}
+	if n < 5 {
+		c.Unresolved(rule, fmt.Sprintf("pool releases (found %d)", n))
+	}
+}
+
+func describeShortV(v ssa.Value) string { return v.Type().String() }
+
+// poolObjName: a stable name for an object taken from a pool — the acquiring call, or the pool it was taken from.
+func (p *Program) poolObjName(v ssa.Value) string {
+	switch x := v.(type) {
+	case *ssa.Call:
+		n := p.CalleeName(&x.Call)
+		if n == "(*sync.Pool).Get" && len(x.Call.Args) == 1 {
+			if g, ok := x.Call.Args[0].(*ssa.Global); ok {
+				return g.Name() + ".Get"
+			}
+		}
+		return n
+	case *ssa.TypeAssert:
+		return p.poolObjName(x.X)
+	case *ssa.Extract:
+		return p.poolObjName(x.Tuple)
+	case *ssa.Phi:
+		for _, e := range x.Edges {
+			if n := p.poolObjName(e); n != "" {
+				return n
+			}
+		}
+	}
+	return v.Type().String()
 }
